@@ -80,12 +80,12 @@ func NewMapRefSelfSource[T any, U any](m map[string]U, fn func(U, Sourcer[T]) (r
 		}
 	}
 	for _, o := range out.List {
-		cur := o
-		for steps := 0; cur != nil && cur.V != nil && cur.V.Ref() != nil; steps++ {
-			if steps > len(out.List) {
+		seen := map[*Object[string, Ref[T]]]struct{}{}
+		for cur := o; cur != nil && cur.V != nil && cur.V.Ref() != nil; cur = cur.V.Ref() {
+			if _, ok := seen[cur]; ok {
 				return zero, fmt.Errorf("map key %q: reference cycle", o.Name)
 			}
-			cur = cur.V.Ref()
+			seen[cur] = struct{}{}
 		}
 	}
 	return out, nil
